@@ -174,6 +174,7 @@ Section FSolve.
         let o := t_solve_t fm v t min_it max_it tl offset cv ec in
         let stop := if fo_code o =? 0 then negb (fo_conv o) && (fc =? c_fail_raise)
                     else if (c_below <=? fo_code o) && (fo_code o <=? c_leads) then true        (* indexing errors always stop (fix 1354783) *)
+                    else if (fo_code o =? c_off_pre) || (fo_code o =? c_off_post) then true     (* so does an offset outside the span (fix b027373) *)
                     else ec =? c_ec_raise in
         let here := ((fo_code o =? 0) && fo_conv o, fo_iter o, fo_code o) in
         if stop then (fo_vals o, here :: map (fun _ => (false, -1, -1)) r)
@@ -286,6 +287,7 @@ Section FSolve.
   Definition w_solve_se (fm : fmod) (d : mdesc) (o : opts) (fl : failmode) (start stop : option nat) (s : mstate)
     : mstate * outcome (list bool) :=
     if max_iter o <? min_iter o then (s, Raise ValueError) else
+    if (List.length (status s) =? 0)%nat then (s, Raise (SolutionError None)) else       (* `span` is empty (fix e0867c1) *)
     match sel_positions d (List.length (status s)) start stop with
     | inr e => (s, Raise e)
     | inl ps => w_solve fm d o fl ps s
@@ -308,7 +310,7 @@ Section FSolve.
     if max_iter o <? min_iter o then (s, Raise ValueError) else py_solve_loop d o ps s [].
   Definition py_solve_se (d : mdesc) (o : opts) (start stop : option nat) (s : mstate) : mstate * outcome (list bool) :=
     if max_iter o <? min_iter o then (s, Raise ValueError) else
-    if (List.length (status s) =? 0)%nat then (s, Raise (SolutionError None)) else       (* iter_periods: `span` is empty (FortranEngine.solve has no such test: kept finding) *)
+    if (List.length (status s) =? 0)%nat then (s, Raise (SolutionError None)) else       (* iter_periods: `span` is empty *)
     match sel_positions d (List.length (status s)) start stop with
     | inr e => (s, Raise e)
     | inl ps => py_solve d o ps s
